@@ -13,6 +13,7 @@
 (*           max-1, max}                                                   *)
 (*   pairs   products 2^i * 2^(w-i) with +-1 perturbations around max+1    *)
 (*           (sampled by seed in the quick tier)                           *)
+(*   shiftmust  (operand, amount) pairs every run shifts left and right     *)
 (*   amounts shift amounts: 0 .. width+1, around 2^63 / 2^64, the type's   *)
 (*           maximum, negative amounts                                     *)
 (* The driver adds VERIF_SEED-seeded random operands; everything it        *)
@@ -31,7 +32,8 @@ WidthOf(T) == IF T.bits > 0 THEN T.bits ELSE 200
 TopExp(T) == IF T.bits = 0 THEN 200 ELSE IF T.signed THEN T.bits - 1 ELSE T.bits
 
 Ks(T) == {k \in 1..(WidthOf(T) + 1) :
-            Dense \/ k <= 10 \/ k % 8 \in {0, 1, 7} \/ k >= TopExp(T) - 2 \/ k \in {63, 64, 65, 127, 128, 129}}
+            Dense \/ k <= 10 \/ k % 8 \in {0, 1, 7} \/ k >= TopExp(T) - 2
+                  \/ k \in {31, 32, 33, 62, 63, 64, 65, 127, 128, 129}}
 
 Keep(T, S) == {x \in S : InRange(T, x)}
 PM(S) == S \cup {ZNeg(x) : x \in S}
@@ -44,6 +46,20 @@ SqrtMax(T) == Z(FALSE, MSqrt(IF T.bits = 0 THEN MPow2(200) ELSE T.max.m))
 Limits(T) == (IF HasMax(T) THEN {T.max, ZSub(T.max, ZOne)} ELSE {})
              \cup (IF HasMin(T) THEN {T.min, ZAdd(T.min, ZOne)} ELSE {})
 
+(* Machine-word boundaries.  The types wider than 64 bits - above all the unbounded Int and UInt -
+   are implemented on big integers, where fast paths for operands or results that fit a machine
+   word are natural; such a path is wrong exactly around 2^63 and 2^64, although the TYPE has no
+   boundary there.  For these types the operand sets therefore also contain 2^63 / 2^64 as if they
+   were limits: floor(sqrt(2^63)), floor(sqrt(2^64)) and neighbours, and pairs whose product, sum,
+   difference or quotient straddles 2^63 or 2^64 (both signs); WordShiftPairs does the same for the
+   shifts. *)
+WordTyped(T) == T.scale = 0 /\ (T.bits = 0 \/ T.bits > 64)
+WordLimits == {63, 64}
+WordSqrt(w) == Z(FALSE, MSqrt(MPow2(w)))
+WordVals(T) ==
+  IF ~WordTyped(T) THEN {}
+  ELSE PM(UNION {Around(WordSqrt(w)) : w \in WordLimits})
+
 \* fixed-point types (values are integers scaled by F = 10^scale): 1.0, its neighbours, 0.1, 10.0,
 \* the largest whole number
 FixSmall(T) ==
@@ -52,7 +68,7 @@ FixSmall(T) ==
                               ZSub(T.factor, ZPow10(T.scale - 1))}
 
 Boundary(T) ==
-  Keep(T, PM(Small) \cup PM(FixSmall(T))
+  Keep(T, PM(Small) \cup PM(FixSmall(T)) \cup WordVals(T)
           \cup PM(UNION {Around(ZPow2(k)) : k \in Ks(T)})
           \cup Limits(T)
           \cup PM(Around(SqrtMax(T))))
@@ -68,6 +84,7 @@ Splits(T) == {i \in 1..(TopExp(T) - 1) : Dense \/ i <= 4 \/ i % 8 \in {0, 1, 7} 
                                           \/ 2 * i \in {TopExp(T) - 1, TopExp(T), TopExp(T) + 1}}
 
 SignPairs(T, x, y) == IF T.signed THEN {<<x, y>>, <<ZNeg(x), y>>, <<x, ZNeg(y)>>, <<ZNeg(x), ZNeg(y)>>} ELSE {<<x, y>>}
+InT(T, S) == {p \in S : InRange(T, p[1]) /\ InRange(T, p[2])}
 
 ProductPairsAt(T, I) ==
   UNION {UNION {SignPairs(T, x, y) : x \in Around(ZPow2(i)), y \in Around(ZPow2(TopExp(T) - i))} : i \in I}
@@ -101,14 +118,39 @@ FixPairs(T) ==
           \cup UNION {SignPairs(T, x, y) : x \in {T.max, ZSub(T.max, ZOne), ZFloorShr(T.max, 1), ZAdd(ZFloorShr(T.max, 1), ZOne)},
                                            y \in Around(T.factor) \cup Around(ZMulSmall(T.factor, 2)) \cup {ZOne, ZFromInt(2), ZFromInt(3)}}
 
+\* pairs around the machine-word boundaries 2^63 and 2^64 (see WordTyped)
+WordPairsAt(T, w) ==
+  LET W2 == ZPow2(w)
+      xs == {ZFromInt(v) : v \in {0, 1, 2, 255}}
+      s  == WordSqrt(w)
+  IN \* products: 2^i * 2^(w-i) with +-1 perturbations, and the squares around sqrt(2^w)
+     UNION {UNION {SignPairs(T, x, y) : x \in Around(ZPow2(i)), y \in Around(ZPow2(w - i))} : i \in {1, 31, 32, w - 1}}
+     \cup UNION {SignPairs(T, x, y) : x \in Around(s), y \in Around(s)}
+     \* sums and differences: (2^w - x) + (x | x+1),  (2^w + x) - (x | x+1),  and the mirrored negative ones
+     \cup UNION {{<<ZSub(W2, x), x>>, <<ZSub(W2, x), ZAdd(x, ZOne)>>, <<x, ZSub(W2, x)>>,
+                  <<ZNeg(ZSub(W2, x)), ZNeg(x)>>, <<ZNeg(ZSub(W2, x)), ZNeg(ZAdd(x, ZOne))>>,
+                  <<ZAdd(W2, x), x>>, <<ZAdd(W2, x), ZAdd(x, ZOne)>>, <<ZSub(W2, x), ZNeg(x)>>, <<ZSub(W2, x), ZNeg(ZAdd(x, ZOne))>>,
+                  <<ZNeg(ZSub(W2, x)), x>>, <<ZNeg(ZSub(W2, x)), ZAdd(x, ZOne)>>, <<x, ZAdd(W2, x)>>} : x \in xs}
+     \* quotients: (2^(w+i) +- 1) / (2^i +- 1) is 2^w or just below / above
+     \cup UNION {UNION {SignPairs(T, x, y) : x \in Around(ZPow2(w + i)), y \in Around(ZPow2(i))} : i \in {1, 32, 64}}
+     \cup UNION {SignPairs(T, x, y) : x \in Around(W2), y \in {ZOne, ZFromInt(2), ZFromInt(3)}}
+
+WordPairs(T) == IF WordTyped(T) THEN UNION {WordPairsAt(T, w) : w \in WordLimits} ELSE {}
+
+\* shifts <<a, n>>: a * 2^n and floor(a / 2^n) straddling 2^63 / 2^64, both signs
+WordShiftPairs(T) ==
+  IF ~WordTyped(T) THEN {}
+  ELSE LET sg(x) == IF T.signed THEN {x, ZNeg(x)} ELSE {x}
+       IN InT(T, UNION {UNION {{<<a, ZFromInt(w - k)>> : a \in UNION {sg(x) : x \in Around(ZPow2(k))}}
+                               \cup {<<a, ZFromInt(k)>> : a \in UNION {sg(x) : x \in Around(ZPow2(w + k))}}
+                               : k \in {0, 1, 31, 32, 62, 63}} : w \in WordLimits})
+
 \* every pair of the limits and of 0, +-1
 LimitPairs(T) == LET L == Keep(T, Limits(T) \cup {ZMinusOne, ZZero, ZOne}) IN L \X L
 
-InT(T, S) == {p \in S : InRange(T, p[1]) /\ InRange(T, p[2])}
-
 \* pairs every run executes for every binary operation (small sets around the limits) ...
 MustPairs(T) == InT(T, SumPairs(T) \cup SquarePairs(T) \cup DivPairs(T) \cup LimitPairs(T)
-                          \cup ProductPairsAt(T, MustSplits(T)))
+                          \cup ProductPairsAt(T, MustSplits(T)) \cup WordPairs(T))
 \* ... and the large families, which the quick tier samples by seed
 Pairs(T) == InT(T, ProductPairs(T) \cup FixPairs(T))
 
@@ -132,6 +174,7 @@ Emit == LET T == Full(TypeOf(tn))
         IN /\ ZIsFloorSqrt(IF T.bits = 0 THEN ZPow2(200) ELSE T.max, SqrtMax(T))     \* generator sanity
            /\ PrintT(ToJson([t |-> tn, vals |-> Boundary(T), core |-> Core(T),
                              must |-> MustPairs(T), pairs |-> Pairs(T), amounts |-> Amounts(T),
+                             shiftmust |-> WordShiftPairs(T),
                              \* the spec's type table, compared with sema's declarations by the check
                              signed |-> T.signed, bits |-> T.bits, word |-> T.word, scale |-> T.scale,
                              hasmin |-> HasMin(T), hasmax |-> HasMax(T), min |-> T.min, max |-> T.max]))
